@@ -758,6 +758,39 @@ pub(crate) fn check_if_response_is_matched(
         (0, total_count - reorg_count)
     };
 
+    // All blocks since the first block which reaches the difficulty boundary should be in the
+    // last n headers.
+    if sampled_count != 0 {
+        let difficulty_boundary: U256 = prev_request.difficulty_boundary().unpack();
+        let first_last_n_header = &headers[total_count - last_n_count];
+        let parent_total_difficulty: U256 = first_last_n_header
+            .parent_chain_root()
+            .total_difficulty()
+            .unpack();
+        if parent_total_difficulty >= difficulty_boundary {
+            let errmsg = format!(
+                "the last n blocks start at block#{} but an earlier block reaches \
+                the difficulty boundary ({:#x})",
+                first_last_n_header.header().number(),
+                difficulty_boundary
+            );
+            return Err(StatusCode::MalformedProtocolMessage.with_context(errmsg));
+        }
+    }
+
+    // The last n headers should end at the parent of the last header.
+    if last_n_count > 0 {
+        let last_last_n_header_number = headers[headers.len() - 1].header().number();
+        let last_number = last_header.header().number();
+        if last_number.checked_sub(1) != Some(last_last_n_header_number) {
+            let errmsg = format!(
+                "the last n blocks should end at the parent of block#{} but end at block#{}",
+                last_number, last_last_n_header_number
+            );
+            return Err(StatusCode::MalformedProtocolMessage.with_context(errmsg));
+        }
+    }
+
     if sampled_count == 0 {
         if last_n_count > 0 {
             // If no sampled headers, the last_n_blocks should be all new blocks.
